@@ -67,10 +67,42 @@ func (s vhS) M() string   { return "m" }
 func (s *vhS) P() string  { return "p" }
 func (s vhS) N(i int) int { return i }
 
-var vhC05Shapes = []string{"embed", "embed-nilptr", "ptr-embed-nilptr", "biglist-maps", "biglist", "ifacemap", "floatmap", "nil", "bool", "int", "int64", "float", "string", "list", "strings", "ints", "array", "map", "map-int", "intmap", "struct", "ptr", "nilptr", "nested", "emptylist", "emptymap"}
+var vhC05Shapes = []string{"chan", "chan-sendonly", "chan-recvonly", "chan-nil", "func", "uintptr", "ptr-int", "struct-chan", "embed", "embed-nilptr", "ptr-embed-nilptr", "biglist-maps", "biglist", "ifacemap", "floatmap", "nil", "bool", "int", "int64", "float", "string", "list", "strings", "ints", "array", "map", "map-int", "intmap", "struct", "ptr", "nilptr", "nested", "emptylist", "emptymap"}
 
 func vhC05Value(k int) interface{} {
 	switch vhC05Shapes[k] {
+	case "chan":
+		c := make(chan int, 3)
+		c <- 1
+		c <- 2
+		return c
+	case "chan-sendonly":
+		c := make(chan string, 2)
+		c <- "s"
+		var so chan<- string = c
+		return so
+	case "chan-recvonly":
+		c := make(chan string, 2)
+		c <- "r"
+		close(c)
+		var ro <-chan string = c
+		return ro
+	case "chan-nil":
+		var c chan int
+		return c
+	case "func":
+		return func() string { return "f" }
+	case "uintptr":
+		return uintptr(5)
+	case "ptr-int":
+		i := 7
+		return &i
+	case "struct-chan":
+		return struct {
+			C chan int
+			F func()
+			N *int
+		}{make(chan int, 1), nil, nil}
 	case "embed":
 		return vhOuterT{vhInnerT: vhInnerT{Promoted: "p"}, vhDeepT: &vhDeepT{Deep: "d"}, Name: "n"}
 	case "embed-nilptr":
@@ -182,7 +214,7 @@ func vhC05Run(tpls []string, nshapes int) {
 	vhC05Tpl := tpls
 	var k int
 	if nshapes < 0 {
-		k = []int{7, 12, 13, 17}[symChoice(4)]
+		k = []int{15, 20, 21, 25}[symChoice(4)]
 	} else {
 		k = symChoice(nshapes)
 	}
